@@ -49,7 +49,19 @@ def parse(fw, token, nonce, leeway=None):
             ui = asyncio.run(oauth.p.parse_id_token(token, nonce=nonce, **kw))
         return {"accepted": ui is not None}
     except JoseError as e:
-        return {"accepted": False, "error": e.error}
+        from authlib.jose import errors as je
+        out = {"accepted": False, "error": e.error}
+        if isinstance(e, je.MissingClaimError):
+            out["canon"] = {"err": "missing_claim", "claim": e.description.split("'")[1]}
+        elif isinstance(e, je.InvalidClaimError):
+            out["canon"] = {"err": "invalid_claim", "claim": e.claim_name}
+        elif isinstance(e, je.ExpiredTokenError):
+            out["canon"] = {"err": "expired_token"}
+        elif isinstance(e, je.InvalidTokenError):
+            out["canon"] = {"err": "invalid_token"}
+        else:
+            out["canon"] = {"err": e.error}
+        return out
     except ValueError as e:            # documented: no key for this kid
         return {"accepted": False, "error": "ValueError"}
     except Exception as e:
